@@ -50,7 +50,13 @@ namespace occa {
     }
 
     void sizeofNode::print(printer &pout) const {
-      pout << "sizeof(" << *value << ')';
+      // The parser keeps the parentheses of sizeof(x) as a parentheses node:
+      // printing another pair would add one more pair on every parse/print round trip
+      if (value->type() & exprNodeType::parentheses) {
+        pout << "sizeof" << *value;
+      } else {
+        pout << "sizeof(" << *value << ')';
+      }
     }
 
     void sizeofNode::debugPrint(const std::string &prefix) const {
